@@ -1,8 +1,8 @@
 (* C19 -- concrete programs and texts used by the non-vacuity Examples and by
    the refutation witnesses.  Definitions only. *)
 From Coq Require Import ZArith List Bool String Ascii.
-From VV Require Import Base.F64 Base.Values Interp.Strategy Mep.Genome
-  Lang.LangBase Gen.Templates Lang.LangDefs Lang.SynDefs Lang.CDenote.
+From VV Require Import Base.F64 Base.Values Interp.Strategy Cxx.CxxMini Gen.Prims Mep.Genome Interp.MachineDefs.
+From VV Require Import Lang.LangBase Gen.Templates Lang.LangDefs Lang.SynDefs Lang.CDenote.
 Import ListNotations.
 Local Open Scope Z_scope.
 
@@ -55,15 +55,18 @@ Definition tmpl_div : bytes := bz "(%%1%%/%%2%%)".
 Definition tmpl_sub : bytes := bz "(%%1%%-%%2%%)".
 Definition tmpl_add : bytes := bz "(%%1%%+%%2%%)".
 
-(* ---- for the non-vacuity of C19_c_denotes_partial: a strtod that knows the
-   literals of the example, one parameter X1 = 1.5, and the program
-   FIFL(X1, 3.5, FDIV(X1, FSQRT(3.5)), FABS(X1)) *)
+(* ---- for the non-vacuity of C19_c_denotes_partial: a C library (unused by the
+   example), a strtod that knows the literal of the example, one input variable
+   X1 = 1.5, and the program FIFL(X1, 3.5, FDIV(X1, FSQRT(3.5)), FABS(X1)) whose
+   symbols carry the REGENERATED bodies (MachineDefs.prim_sym) *)
 Definition d35 : f64 := F64.of_bits 4615063718147915776.      (* 3.5 *)
 Definition d15 : f64 := F64.of_bits 4609434218613702656.      (* 1.5 *)
+Definition lm0 : libm := {| l_log := fun x => x; l_exp := fun x => x; l_sin := fun x => x; l_cos := fun x => x |}.
+Definition pow0 : f64 -> f64 -> f64 := fun x _ => x.
 Definition lit0 : bytes -> option f64 := fun w =>
-  if bytes_eqb w (bz "2") then Some two
-  else if bytes_eqb w (bz "3.500000") then Some d35 else None.
-Definition rho0 : bytes -> option f64 := fun w => if bytes_eqb w (bz "X1") then Some d15 else None.
+  if bytes_eqb w (bz "3.500000") then Some d35 else None.
+Definition rho0 : bytes -> option cval := fun w => if bytes_eqb w (bz "X1") then Some (CD d15) else None.
+Definition vars0 : varenv := fun i => match i with O => Some (VDouble d15) | _ => None end.
 Definition env1 : lang_env := fun op =>
   match op with
   | 0 => Some (SClass tc_real_div)
@@ -74,5 +77,12 @@ Definition env1 : lang_env := fun op =>
   | 5 => Some (SClass tc_real_ifl)
   | _ => None
   end.
+Definition s_x1 : sym := variable_sym 1 O O.
+Definition s_35 : sym := constant_sym 3 (VDouble d35) O.
+Definition lf (s : sym) : tree := Node s F64.zero [].
 Definition t_exec : tree :=
-  node4 5 (leaf 1) (leaf 3) (node2 0 (leaf 1) (node1 2 (leaf 3))) (node1 4 (leaf 1)).
+  Node (prim_sym lm0 5 real_ifl_body O [O; O; O; O] false) F64.zero
+    [lf s_x1; lf s_35;
+     Node (prim_sym lm0 0 real_div_body O [O; O] false) F64.zero
+       [lf s_x1; Node (prim_sym lm0 2 real_sqrt_body O [O] false) F64.zero [lf s_35]];
+     Node (prim_sym lm0 4 real_abs_body O [O] false) F64.zero [lf s_x1]].
